@@ -77,6 +77,12 @@ def s_ds(tier, seed, out):
                     out.write("ds\t" + " ".join(pre + [op + arg, "sh:3"]) + "\n")
                     out.write("ds\t" + " ".join(pre + [op + arg[::-1]]) + "\n")
                     n += 2
+    # sizes past 16-bit limits, one operation each (the answer carries the whole rendering)
+    for big in (65535, 65536, 70000):
+        out.write("ds\tsh:%d\n" % big)
+        out.write("ds\tat:3:%d\n" % big)
+        out.write("ds\tput:5 sh:%d\n" % big)
+        n += 3
     for pos in (15, 16, 17, 31, 64, 300):
         for pre in ([], ["put:12"], ["put:0", "put:0"]):
             out.write("ds\t" + " ".join(pre + ["at:3:%d" % pos, "sh:%d" % min(pos, 40)]) + "\n")
@@ -153,6 +159,10 @@ def s_tok(tier, seed, out):
             n += 1
     rng = SplitMix64(seed)
     pool = TOK_ALPHA + ["É", "ß", "İ", "ǅ", "Ǆ", "ﬁ", " ", "　", " ", "x", "Z", "0", "٣", "Ⅷ", "ª", "_"]
+    # + one or two characters of every general category that could be special-cased: format (Cf: soft hyphen, ZWSP, ZWJ,
+    # word joiner, BOM), controls, modifier letters/symbols, other numbers, private use, tag characters
+    pool += ["\u00ad", "\u200b", "\u200d", "\u2060", "\ufeff", "\u0000", "\u0007", "\u001f", "\u007f", "\u0085",
+             "\u02b0", "\u02c6", "\u00b2", "\u00bd", "\ue000", "\ufffd", "\U000e0001", "\u061c", "\u180e"]
     for _ in range(20000 if tier != "thorough" else 200000):
         s = "".join(rng.choice(pool) for _ in range(1 + rng.below(14)))
         out.write("tok\t%s\n" % esc(s))
@@ -180,7 +190,7 @@ ORDINARY = {
 _OWN = {"en": ["point"], "fr": ["virgule"], "es": ["coma"], "pt": ["vírgula"], "it": ["virgola"], "de": ["komma"], "nl": ["komma"]}
 for _l in ORDINARY:
     ORDINARY[_l] += [w for w in _SEPWORDS if w not in _OWN[_l]]
-SEPS = [" ", " ", " ", ", ", ". ", "; ", ": ", " - ", "-", " ", "  ", "\t", " . ", "! ", "? ", " (", ") ", "\n", "."]
+SEPS = [" ", " ", " ", ", ", ". ", "; ", ": ", " - ", "-", " ", "  ", "\t", " . ", "! ", "? ", " (", ") ", "\n", ".", "\u00ad", " \u200b", "\ufeff ", "\u2060"]
 DECSEP = {"en": "point", "fr": "virgule", "es": "coma", "pt": "vírgula", "it": "virgola", "de": "Komma", "nl": "komma"}
 
 _bank_cache = {}
